@@ -198,3 +198,47 @@ def print_assumptions(scratch, prop_module, theorems, timeout=300):
     for t, c in zip(theorems, chunks):
         res[t] = c
     return res, out
+
+
+def run_case_codes(scratch, name, imports, case_type, cases, code_fn, extra="", shard=300, timeout=600, maxpar=6):
+    """Like run_cases, but evaluates ONE Gallina function case_type -> nat per case (e.g. a bit mask of several
+    checks, so that model and spec are evaluated once) and returns the list of codes in case order."""
+    files = []
+    for k in range(0, max(len(cases), 1), shard):
+        part = cases[k:k + shard]
+        path = os.path.join(scratch.dir, "codes_%s_%d.v" % (name, k // shard))
+        with open(path, "w") as f:
+            f.write("From Pydra Require Import Base.Prelude %s.\n" % " ".join(imports))
+            f.write("Set Printing Width 1000000.\nSet Printing Depth 1000000.\n")
+            f.write(extra + "\n")
+            f.write("Definition cases : list (%s) :=\n [" % case_type)
+            f.write(";\n  ".join(part))
+            f.write("]%list.\n")
+            f.write("Eval vm_compute in (map (%s) cases).\n" % code_fn)
+        files.append((k, path, len(part)))
+    codes = [None] * len(cases)
+    pending, running, errors = list(files), [], []
+    while pending or running:
+        while pending and len(running) < maxpar:
+            k, path, n = pending.pop(0)
+            pr = subprocess.Popen(["timeout", str(timeout), "coqc"] + COQFLAGS + [path],
+                                  stdout=subprocess.PIPE, stderr=subprocess.STDOUT, text=True,
+                                  cwd=os.path.dirname(path))
+            running.append((k, path, n, pr))
+        k, path, n, pr = running.pop(0)
+        out, _ = pr.communicate()
+        if pr.returncode != 0:
+            errors.append((path, out[-2000:]))
+            continue
+        vals = split_evals(out)
+        if len(vals) != 1:
+            errors.append((path, "expected 1 eval, got %r" % out[-2000:]))
+            continue
+        got = parse_nat_list(vals[0])
+        if len(got) != n:
+            errors.append((path, "expected %d codes, got %d" % (n, len(got))))
+            continue
+        codes[k:k + n] = got
+    if errors:
+        raise CoqCaseError(errors)
+    return codes
